@@ -496,8 +496,23 @@ def gen_C12(r):
         ops.append(op)
     if "plant" in state:
         ops.append({"op": "plant", "items": [{"kind": "archive_version_dir", "archive": "A0", "idx": r.randrange(4)}]})
+    # earlier attempts in the same project: a restore that failed (other corruption) or was killed midway
+    for _ in range(r.choice([0, 0, 1, 1, 2])):
+        pre = {"op": "restore", "archive": "A0", "cwd": ""}
+        c = r.random()
+        if c < 0.5:
+            pre["corrupt"] = r.choice([x for x in CORRUPTIONS if x])
+        elif c < 0.9:
+            pre["kill"] = int(10 ** r.uniform(1.8, 3.0))
+        ops.append(pre)
+    if r.random() < 0.25:
+        # results of another checkout with the same version ids but other contents
+        exps = [t for t, d in scn["tasks"].items() if d["kind"] == "exp"]
+        if exps:
+            ops.append({"op": "foreign", "clock_of_step": 0, "targets": r.sample(exps, 1), "out": "F0"})
     corrupt = r.choice(CORRUPTIONS)
-    rop = {"op": "restore", "archive": "A0", "cwd": r.choice(["", ""] + list(scn["pkgs"]))}
+    rop = {"op": "restore", "archive": "F0" if ops[-1]["op"] == "foreign" and r.random() < 0.7 else "A0",
+           "cwd": r.choice(["", ""] + list(scn["pkgs"]))}
     if corrupt:
         rop["corrupt"] = corrupt
     ops.append(rop)
